@@ -48,12 +48,16 @@ def _col(name, arr, fmt, unit=None, dim=None):
     return fits.Column(name=name, format=fmt, array=arr, unit=unit, dim=dim)
 
 
+YESNO = 0          # how the yes/no flag of models.conf is spelled (the reader takes y/yes/n/no in any case): set by a check to vary it
+
+
 def write_conf(model_dir, name='verif', length_subdir=0, aperture_dependent=False,
                logd_step=0.02, version=1):
+    yes, no = [('yes', 'no'), ('Yes', 'No'), ('YES', 'NO'), ('y', 'n'), ('Y', 'N')][YESNO % 5]
     with open(os.path.join(model_dir, 'models.conf'), 'w') as f:
         f.write('name = %s\n' % name)
         f.write('length_subdir = %d\n' % length_subdir)
-        f.write('aperture_dependent = %s\n' % ('yes' if aperture_dependent else 'no'))
+        f.write('aperture_dependent = %s\n' % (yes if aperture_dependent else no))
         f.write('logd_step = %r\n' % logd_step)
         if version != 1:
             f.write('version = %d\n' % version)
